@@ -10,6 +10,17 @@ CODE_FIXLEAVE = True
 CODE_FIXWRAP = True
 
 
+# quick tier: each ring property replays the coverage-goal witnesses closest to it (thorough: every property replays all of them)
+_DATA = ["join-granted-with-keys", "leave-transfer-with-keys", "leave2-selffirst-refused-not-predecessor", "join-refused-pred-unsettled"]
+QUICK_GOALS = {
+    "C03": _DATA,
+    "C04": ["join-granted-with-keys", "leave-transfer-with-keys"],
+    "C05": _DATA + ["checkpred-cleared"],
+    "C06": [g for g in ringlib.GOALS if g in ringlib.GOAL_AT and (g.startswith("leave") or g.startswith("join-refused"))],
+    "C08": ["join-refused-busy", "join-refused-pred-unsettled", "join-granted-with-keys", "checkpred-cleared", "leave-no-neighbour"],
+}
+
+
 def engine(ck, pid, kinds, n_quick=40, n_thorough=400, gen_kw=None, mc=True):
     """kinds: finding kinds (see ringlib.PROP_OF + 'panic','client-fatal','join-fatal') that count for this property"""
     binary = ck.build("chord")
@@ -38,15 +49,19 @@ def engine(ck, pid, kinds, n_quick=40, n_thorough=400, gen_kw=None, mc=True):
                 sc = ringlib.cex_to_scenario(ringlib.cex_states(r.trace_json), "variant-cex-%s-%s" % (r.error["name"], "fp" if not fp else "fl"))
                 _judge(ck, pid, kinds, binary, [sc], "variant-counterexample")
         # (A'') coverage goals: a shortest behaviour through every branch of the membership actions, replayed on the real code
-        wit = ringlib.goal_witnesses(ck, CODE_FIXPRED, CODE_FIXLEAVE, CODE_FIXWRAP)
+        goals = None if ck.thorough else QUICK_GOALS.get(pid)
+        wit = ringlib.goal_witnesses(ck, CODE_FIXPRED, CODE_FIXLEAVE, CODE_FIXWRAP, goals=goals)
         if wit:
             _judge(ck, pid, kinds, binary, wit, "goal-witness")
         ck.extra["goal_witnesses_replayed"] = len(wit)
     # (B/C) seeded controlled schedules
     n = n_thorough if ck.thorough else n_quick
+    import random as _random
+    ck.rng = _random.Random(ck.seed * 1000 + int(pid[1:]))      # every ring property explores its own schedules
     scenarios = []
     for i in range(n):
         kw = dict(gen_kw or {})
+        kw.setdefault("kv_gates", i % 2 == 0)      # every other scenario parks client operations at the kv:local gate
         if ck.thorough and i % 3 == 0:
             kw.update(n_nodes=7, n_init=4, n_join=2, n_leave=2, n_keys=4, n_ops=8)
         elif i % 4 == 1:
